@@ -256,6 +256,23 @@ struct OpGen {
   }
   Json gen(bool lattice_ops, bool benign, bool alias) {
     for (;;) {
+      if (r.chance(1, 14)) {
+        Json j = op("spread");
+        j.set("r", reg());
+        j.set("x", iv());
+        static const long ms[] = {1, 2, 3, 4, 5, 7, 8, -2, -3};
+        j.set("m", zs(mpz_class(ms[r.below(9)])));
+        j.set("k", (long)r.below(3));
+        return j;
+      }
+      if (r.chance(1, 14)) {
+        Json j = op("assume_point");
+        j.set("r", reg());
+        j.set("x", iv());
+        j.set("w", (long)r.below(12));
+        j.set("kind", (long)r.below(3));
+        return j;
+      }
       unsigned k = (unsigned)r.below(100);
       if (k < 14) {
         Json j = op("assign");
@@ -855,6 +872,85 @@ struct Interp {
       }
       return true;
     }
+    if (o == "spread") {
+      // r := r join shift(r, x, m) join ... join shift(r, x, k*m): the values of x
+      // form an arithmetic progression (several disjuncts / a congruence class)
+      Reg &rg = R("r");
+      std::string x = op.at("x").as_str();
+      mpz_class m(op.at("m").as_str("1"));
+      long k = 1 + (long)op.at("k").as_int() % 3;
+      AbsVal::P acc = rg.val->clone();
+      std::vector<Witness> nw = rg.wit;
+      for (long i = 1; i <= k; i++) {
+        AbsVal::P t = rg.val->clone();
+        lin_exp_t e = lin_exp_t(cx.v(x)) + to_num(mpz_class(m * i));
+        t->assign(cx.v(x), e);
+        acc = acc->join(*t);
+        for (auto w : rg.wit) {
+          w.i[x] += m * i;
+          nw.push_back(w);
+        }
+      }
+      rg.val = std::move(acc);
+      rg.wit = nw;
+      cap(rg.wit);
+      return check_reg(RI("r"), "spread");
+    }
+    if (o == "assume_point") {
+      // exclude exactly the value a live witness has for x: x != v, x < v or x > v
+      Reg &rg = R("r");
+      if (rg.wit.empty())
+        return true;
+      std::string x = op.at("x").as_str();
+      const Witness &w = rg.wit[(size_t)op.at("w").as_int() % rg.wit.size()];
+      auto it = w.i.find(x);
+      if (it == w.i.end())
+        return true;
+      LinCst c;
+      long kind = (long)op.at("kind").as_int() % 3;
+      if (kind == 0) { // x - v != 0
+        c.kind = LinCst::NEQ;
+        c.e = LinExp::var(x);
+        c.e.cst = -it->second;
+      } else if (kind == 1) { // x - v < 0
+        c.kind = LinCst::LT;
+        c.e = LinExp::var(x);
+        c.e.cst = -it->second;
+      } else { // v - x < 0
+        c.kind = LinCst::LT;
+        c.e = LinExp::var(x, -1);
+        c.e.cst = it->second;
+      }
+      Json cs = Json::arr();
+      cs.push(c.to_json());
+      rg.val->add_constraints(sys_of(cs));
+      filter(rg.wit, cs);
+      return check_reg(RI("r"), "assume");
+    }
+    if (o == "leq_spread") {
+      // b := shift(a, x, -m) join shift(a, x, +m) usually does not contain a itself:
+      // a yes answer of a <= b is judged on the witnesses of a
+      int a = RI("a");
+      std::string x = op.at("x").as_str();
+      mpz_class m(op.at("m").as_str("1"));
+      AbsVal::P lo = regs[a].val->clone(), hi = regs[a].val->clone();
+      lo->assign(cx.v(x), lin_exp_t(cx.v(x)) - to_num(m));
+      hi->assign(cx.v(x), lin_exp_t(cx.v(x)) + to_num(m));
+      AbsVal::P b = lo->join(*hi);
+      bool yes = regs[a].val->leq(*b);
+      st.inc(yes ? "leq_spread_yes" : "leq_spread_no");
+      if (yes) {
+        for (auto &ww : regs[a].wit) {
+          GammaResult g = in_gamma(*b, sigma_of_witness(cx, ww), gopts);
+          if (!g.ok) {
+            violation("leq_yes_but_state_not_in_rhs", g.item,
+                      g.detail + " ; lhs=" + regs[a].val->str() + " rhs=" + b->str());
+            return false;
+          }
+        }
+      }
+      return true;
+    }
     if (o == "leq_shrunk") {
       // a <= (a with one more constraint that excludes a witness of a): a yes
       // answer loses that witness. The constraint is built at run time from a
@@ -1169,6 +1265,13 @@ Case gen_c04(Rng &r, const Tier &t, const std::vector<std::string> &doms) {
       q.set("op", "leq");
       q.set("a", (long)r.below(nregs));
       q.set("b", (long)r.below(nregs));
+      ops.push(q);
+    } else if (r.chance(1, 4)) {
+      Json q = Json::obj();
+      q.set("op", "leq_spread");
+      q.set("a", (long)r.below(nregs));
+      q.set("x", "v" + std::to_string(r.below(N_INT)));
+      q.set("m", zs(mpz_class((long)r.range(1, 5))));
       ops.push(q);
     } else if (r.chance(1, 2)) {
       Json q = Json::obj();
